@@ -31,6 +31,9 @@ QUERYD = ("query", "disk", 25, 100, 30, 60)
 RESUME = ("resume", "mem", 60, 250, 40, 80)
 RESUMED = ("resume", "disk", 20, 80, 40, 80)
 
+COLLS = ("colls", "mem", 30, 300, 40, 80)
+COLLSD = ("colls", "disk", 20, 200, 40, 80)
+
 VIEW = ("view", "mem", 50, 300, 60, 120)
 VIEWD = ("view", "disk", 20, 120, 60, 120)
 VIEWM = ("viewmeta", "mem", 30, 200, 60, 120)
@@ -54,7 +57,7 @@ PROPS = {
     "C02": dict(modules=["Rosmar.Properties.C02"], slices=[KV, KVD, SUBDOC],
                 proj=P(rb=ROW, results=True, ops={"wcas", "remove", "wwx", "wtx", "updx", "rmx", "uxdb", "swm", "dwm", "update", "wuwx"}),
                 what="results of CAS-conditional writes and the row before/after"),
-    "C04": dict(modules=["Rosmar.Properties.C04", "Rosmar.Gen.Tie"], slices=[CLOCK, CLOCKD, KV],
+    "C04": dict(modules=["Rosmar.Properties.C04", "Rosmar.Gen.Tie"], slices=[CLOCK, CLOCKD, KV, COLLS, COLLSD],
                 proj=P(rb=["row", "row.cas"], results=True, ops={"draw", "restart", "lastcas", "wcas", "remove", "touch", "setx", "updx", "wwx", "wtx", "wrx", "uxdb", "update", "wuwx"}),
                 what="every CAS handed out under adversarial clock scripts, draws by other buckets, close/reopen with a forgetful clock"),
     "C05": dict(modules=["Rosmar.Properties.C05"], slices=[KV, FEEDS, MULTI],
@@ -75,7 +78,7 @@ PROPS = {
                 what="on-disk histories with close/reopen in-process (restart) compared with the model; and fault enumeration: a child process "
                      "is SIGKILLed at instrumentation points (txn.begin, cas.afterwrite, txn.precommit, txn.committed, post.before, ...) and a "
                      "fresh process reopens and reads everything back"),
-    "C11": dict(modules=["Rosmar.Properties.C11", "Rosmar.Gen.Tie"], slices=[MULTI, MULTID], proj=V.proj_all,
+    "C11": dict(modules=["Rosmar.Properties.C11", "Rosmar.Gen.Tie"], slices=[MULTI, MULTID, COLLS, COLLSD], proj=V.proj_all,
                 what="every key of every collection re-read after every operation on any collection"),
     "C03": dict(modules=["Rosmar.Properties.C03"], slices=[KV, KVD], proj=V.proj_all,
                 what="forced interleavings of compound calls (Update, WriteUpdateWithXattrs, WriteSubDoc, Incr) with other writers through the "
@@ -160,7 +163,7 @@ def extra_C20(tier, seed, log):
     return shutdown.run(tier, seed, log)
 
 
-EXTRA = {"C20": extra_C20, "C10": extra_C10, "C14": extra_C14, "C03": extra_C03, "C13": extra_sched("C13"), "C08": extra_sched("C08"), "C09": extra_sched("C09"), "C15": extra_sched("C15"), "C16": extra_sched("C16")}
+EXTRA = {"C20": extra_C20, "C10": extra_C10, "C14": extra_C14, "C03": extra_C03, "C13": extra_sched("C13"), "C08": extra_sched("C08"), "C09": extra_sched("C09"), "C15": extra_sched("C15"), "C16": extra_sched("C16"), "C18": extra_sched("C18")}
 
 
 def load_lines(path):
